@@ -89,7 +89,7 @@ Qed.
 
 Lemma u8sub_small a b : b <= a -> a < 256 -> u8sub a b = a - b.
 Proof.
-  intros H1 H2. unfold u8sub.
+  intros H1 H2. unfold u8sub. rewrite (N.mod_small b 256) by lia.
   replace (a + 256 - b) with ((a - b) + 1 * 256) by lia.
   rewrite N.mod_add by lia. apply N.mod_small. lia.
 Qed.
@@ -268,7 +268,7 @@ Theorem matcher_ok m pat p :
   prefix_wfb pat = true -> prefix_wfb p = true -> matcher_match m pat p = m_ref m pat p.
 Proof.
   intros Wp Wx. destruct (prefix_wfb_parts _ Wx) as [Wx1 _].
-  unfold matcher_match, m_ref.
+  unfold matcher_match, matcher_match_w, m_ref.
   destruct (N.lt_trichotomy (pf_len pat) (pf_len p)) as [Hlt | [Heq | Hgt]].
   - rewrite (contains_agree _ _ Wp Wx1 Hlt), (equal_difflen pat p) by lia.
     assert (E1 : (pf_len p =? pf_len pat) = false) by (apply N.eqb_neq; lia).
